@@ -19,6 +19,11 @@ CHECKS = {
    text="Id resolution is observed for annotations, resources, datasets, substores and per-dataset keys and data after every step of thousands of histories: a live id must resolve to exactly the item carrying it, removed / never-used ids and wrong-kind or dead temporary ids must not resolve, nothing may panic, resolve_*_id must agree with the getters, duplicate-id insertions must be no-ops or refused without changing the store. Held on what was probed; reindex with gaps is a recorded known finding.",
    note="Trusted: model id tables; public ids that look like temporary ids are not generated; non-canonical temporary ids ('!A01', '!a1') are only required not to panic or return an unrelated item.",
    ref="5/C03"),
+ "C04": dict(
+   technique="runtime oracle monitor: exhaustive enumeration of (short text, cursor pair, alignment) cells for resource and annotation-relative offsets against arithmetic on Vec<char>; accept/reject, selected codepoints and the offset reported in all four OffsetModes are checked on every accepted annotation; panics caught per call",
+   text="For every text up to length 4 (5 thorough) over a 1/2/4-byte alphabet and every pair of cursors of either alignment in [-len-2, len+2], annotate(TextSelector) and FindText::textselection must accept exactly the valid ranges and select exactly those codepoints; likewise for every parent range and relative cursor pair through AnnotationSelector offsets and textselection() on selections; reported offsets must be well-formed and re-resolve to the same range in all four modes; random nesting to depth 3 and extreme cursors. Exhaustive within these bounds.",
+   note="Trusted: resolve_off() in harness/src/model.rs (C04 definition from the property statement). JSON/CSV serialised offsets are covered by C05/C15.",
+   ref="5/C04"),
  "C13": dict(
    technique="runtime oracle monitor: exhaustive enumeration of range pairs / small set pairs against interval-arithmetic reference + algebraic laws, panics caught per call",
    text="Every ordered pair of ranges of several 7-codepoint texts (incl. zero-width, whitespace layouts) and every ordered pair of sets of size<=2 over a 10-range universe is run through the real test/test_set entry points for all 92 operator x modifier variants; each answer is compared with an interval-arithmetic reference and the converse/symmetry/implication/complement laws. Exhaustive within that bound, nothing beyond it.",
